@@ -1,0 +1,32 @@
+//go:build verif
+
+package dig
+
+import (
+	"context"
+	"sync"
+
+	"github.com/indexsupply/shovel/wctx"
+	"github.com/indexsupply/shovel/wpg"
+)
+
+// VerifCfgAccept runs Filter.Accept on one datum with a fresh mutex and a
+// fresh result accumulator and reports whether a result was recorded, the
+// accumulated value and the error.
+func VerifCfgAccept(ctx context.Context, f Filter, pg wpg.Conn, d any, agg string) (set, val bool, err error) {
+	var mut sync.Mutex
+	frs := filterResults{kind: agg}
+	err = f.Accept(ctx, &mut, pg, d, &frs)
+	return frs.set, frs.accept(), err
+}
+
+// VerifCfgNotify runs the notification statement builder of an integration
+// for the given rows; source and integration names are read from ctx exactly
+// as Insert does.
+func VerifCfgNotify(ctx context.Context, ig Integration, pg wpg.Conn, rows [][]any) error {
+	lwc := &logWithCtx{ctx: wctx.WithIGName(ctx, ig.Name())}
+	return ig.notify(lwc, pg, rows)
+}
+
+// VerifCfgColumns returns the COPY column list computed by setCols.
+func VerifCfgColumns(ig Integration) []string { return ig.Columns }
